@@ -104,6 +104,12 @@ Post(s, u, c) ==
          ELSE           \* enter TX: pipe 0 enabled when auto-ack needs it; CE low
             [s EXCEPT !.c = SetField(s.c, 3, 2), !.ce = 0,
                       !.en = IF Bit(s.aa, 0) = 1 THEN SetBit(s.en, 0, TRUE) ELSE s.en]
+    \* carrier-wave test (nRF24L01+): power-cycled into TX mode, CONT_WAVE and PLL_LOCK set, CE high; stopping powers
+    \* down with CE low and clears both bits.  listen = False is part of it, so pipe 0 follows the TX-mode rule.
+    [] c.op = "start_carrier_wave" ->
+         [s EXCEPT !.c = SetField(s.c, 3, 2), !.rf = SetField(s.rf, 144, 144), !.ce = 1,
+                   !.en = IF Bit(s.aa, 0) = 1 THEN SetBit(s.en, 0, TRUE) ELSE s.en]
+    [] c.op = "stop_carrier_wave" -> [s EXCEPT !.c = SetBit(s.c, 1, FALSE), !.rf = SetField(s.rf, 144, 0), !.ce = 0]
     [] OTHER -> s          \* getters and everything else leave the configuration alone
 
 \* calls whose register effect is deliberately left open by the documentation: the observed value is accepted
@@ -111,6 +117,7 @@ Post(s, u, c) ==
 FreeFields(s, u, c) ==
   CASE c.op = "open_tx_pipe" /\ ~(Bit(s.aa, 0) = 1 /\ InTx(s)) -> {"p0", "en"}   \* outside TX mode pipe 0 may or may not be prepared
     [] c.op = "listen=" /\ ~c.v /\ Bit(s.aa, 0) = 0 -> {"en"}
+    [] c.op = "start_carrier_wave" /\ Bit(s.aa, 0) = 0 -> {"en"}
     [] OTHER -> {}
 
 \* ---- getters (value in effect, decoded from the register file)
@@ -165,6 +172,7 @@ Owner(c) ==
     [] c.op = "close_rx_pipe" -> {"en"}
     [] c.op = "open_tx_pipe" -> {"txa", "p0", "en"}
     [] c.op = "listen=" -> {"c", "ce", "p0", "en"}
+    [] c.op \in {"start_carrier_wave", "stop_carrier_wave"} -> {"c", "rf", "ce", "en"}
     [] OTHER -> {}
 Fields == {"c", "aa", "en", "aw", "retr", "ch", "rf", "dyn", "feat", "pw", "p0", "p1", "p25", "txa", "ce"}
 
